@@ -134,6 +134,35 @@ class _OsShim(object):
 # ---------------------------------------------------------------------------
 
 @implementer(interfaces.IProcessTransport)
+class _InertProcess(object):
+    """process transport of a Tor that was started earlier and just sits there"""
+    pid = 4243
+
+    def signalProcess(self, signalID):
+        pass
+
+    def loseConnection(self):
+        pass
+
+    def closeStdin(self):
+        pass
+
+    def closeStdout(self):
+        pass
+
+    def closeStderr(self):
+        pass
+
+    def closeChildFD(self, fd):
+        pass
+
+    def write(self, data):
+        pass
+
+    def writeToChild(self, fd, data):
+        pass
+
+
 class SimTorProcess(object):
 
     def __init__(self, run, proto, executable, args, env, path):
@@ -610,6 +639,8 @@ class LaunchRun(object):
 
     # ------------------------------------------------------------------ config
     second_listener_line = False
+    shutdown_fired = False
+    decoy_dir = None
 
     def draw_config(self):
         ch = self.ch
@@ -617,6 +648,7 @@ class LaunchRun(object):
         self.user_dir = ch.chance(1, 3, 'userdir')
         self.user_dir_pre = ch.chance(1, 2, 'predir') if self.user_dir else False
         self.config_dir = (not self.user_dir) and ch.chance(1, 5, 'configdir')
+        self.decoy = ch.chance(1, 6, 'decoylaunch')
         self.tcp = ch.chance(1, 4, 'tcpctl')
         self.socks_none = ch.chance(1, 6, 'socksnone')
         self.kill_on_stderr = not ch.chance(1, 4, 'nokill')
@@ -785,9 +817,13 @@ class LaunchRun(object):
             names = sorted(os.listdir(self.root))
         except OSError:
             raise HarnessError('scratch root vanished')
-        return [n for n in names if n not in ('userdata', 'cfgdata')]
+        skip = ('userdata', 'cfgdata') + ((os.path.basename(self.decoy_dir),) if self.decoy_dir else ())
+        return [n for n in names if n not in skip]
 
     def check_dirs(self, when):
+        if self.decoy_dir and not self.shutdown_fired and not os.path.isdir(self.decoy_dir):
+            self.fail('C19.tempdir-of-running-process-removed',
+                      'the temporary DataDirectory of an EARLIER launch, whose process is still running, no longer exists %s' % when)
         left = self.temp_dirs()
         if left:
             self.fail('C19.tempdir-exists-after-process-ended',
@@ -942,13 +978,19 @@ class LaunchRun(object):
         import txtorcon.controller as controller
         import txtorcon.torcontrolprotocol as tcp
         sim = self.sim
-        self.root = os.path.join(SCRATCH_PARENT, 'txsim-%d' % os.getpid())
+        outer = os.path.join(SCRATCH_PARENT, 'txsim-%d' % os.getpid())
+        shutil.rmtree(outer, ignore_errors=True)
+        os.mkdir(outer, 0o700)
+        self.root = outer
+        if self.ch.chance(1, 4, 'oddtmp'):
+            # a temporary directory whose path contains characters that mean something to glob / fnmatch
+            self.root = os.path.join(outer, 'build[7] *x')
+            os.mkdir(self.root, 0o700)
+            sim.probe('tempdir-path-with-glob-characters')
         self.norm = _normaliser(self.root)
         orig_log = sim.log
         norm = self.norm
         sim.log = lambda *entry: orig_log(*[norm(x) for x in entry])
-        shutil.rmtree(self.root, ignore_errors=True)
-        os.mkdir(self.root, 0o700)
         old_tempdir = tempfile.tempdir
         old_find = controller.find_tor_binary
         had_open = 'open' in tcp.__dict__
@@ -968,7 +1010,7 @@ class LaunchRun(object):
                 tcp.open = old_open
             else:
                 del tcp.open
-            shutil.rmtree(self.root, ignore_errors=True)
+            shutil.rmtree(outer, ignore_errors=True)
             sim.log = orig_log
 
     def _run(self, txtorcon):
@@ -994,6 +1036,19 @@ class LaunchRun(object):
             cfg.DataDirectory = self.cfg_path
             kw['_tor_config'] = cfg
             sim.probe('caller-config-with-data-directory')
+        self.decoy_dir = None
+        if self.decoy:
+            # an earlier launch() in the same process whose Tor keeps running (and never gets anywhere): its temporary
+            # DataDirectory belongs to a process that has not ended, whatever happens to the launch under test
+            sim.probe('earlier-launch-still-running')
+            before = set(os.listdir(self.root))
+            sim.reactor.spawn_hook = lambda proto, executable, args, env, path: (proto.makeConnection(_InertProcess()), proto.transport)[1]
+            d0 = txtorcon.launch(sim.reactor, timeout=10 ** 7, tor_binary='/sim/tor', socks_port=None)
+            d0.addErrback(lambda f: None)
+            new = sorted(set(os.listdir(self.root)) - before)
+            if len(new) != 1:
+                raise HarnessError('decoy launch made %r' % (new,))
+            self.decoy_dir = os.path.join(self.root, new[0])
         sim.reactor.spawn_hook = self.spawn
         sim.reactor.connect_policy = self.connect_policy
         sim.add_source(self.workload_actions)
@@ -1099,6 +1154,7 @@ class LaunchRun(object):
                 self.fail('C19.%s-pending-after-%s' % ('result' if w.kind == 'launch' else 'when-connected', what),
                           '%s is still pending at quiescence although the process has ended (milestones %r)' % (name, self.order))
         self.check_dirs('at quiescence after the process ended')
+        self.shutdown_fired = True
         sim.reactor.fireSystemEvent('shutdown')
         if self.user_dir and not os.path.isdir(self.user_path):
             self.fail('C19.caller-directory-removed', 'the caller-supplied data directory was removed by the shutdown trigger')
